@@ -469,6 +469,132 @@ func c02(c *ctx) {
 			}
 		}
 	}
+
+	// ------------------------------------------------------------------ R9
+	c.ruleSignedPowerMemberwise("R9")
+}
+
+// ruleSignedPowerMemberwise (C02.R9): the power a certificate is credited with is the sum of the voting power of exactly
+// the members whose signer bit was tested — the same per-index test the key aggregation uses. Decided structurally on
+// AggregateSignature.getSigners: every value its power result can take is 0 or a sum whose terms are `member.VotingPower`
+// added under a SignerEnabledAt test. A shortcut that returns the set's total (or anything computed from the raw bitmap
+// bytes, whose padding bits the signature check ignores) credits power nobody signed for.
+func (c *ctx) ruleSignedPowerMemberwise(R string) {
+	r := c.r
+	r.Rule(R, "FLOW", "signed power is counted member by member: every value the power result of AggregateSignature.getSigners can take is 0 or an accumulation of VotingPower terms, each added in a block dominated by the SignerEnabledAt test of that member's index", 2)
+	gs := c.fn("lib.(*AggregateSignature).getSigners")
+	if gs == nil {
+		return
+	}
+	// index of the power result
+	pIdx := -1
+	for i := 0; i < gs.Signature.Results().Len(); i++ {
+		if b, ok := gs.Signature.Results().At(i).Type().Underlying().(*types.Basic); ok && b.Kind() == types.Uint64 {
+			pIdx = i
+		}
+	}
+	if !r.Anchor(pIdx >= 0, "getSigners' uint64 power result") {
+		return
+	}
+	dominatedByTest := func(b *ssa.BasicBlock) bool {
+		for _, tb := range b.Parent().Blocks {
+			for _, in := range tb.Instrs {
+				if cc := callCommon(in); cc != nil && cc.IsInvoke() && cc.Method.Name() == "SignerEnabledAt" && tb.Dominates(b) {
+					return true
+				}
+			}
+		}
+		return false
+	}
+	// a helper this change introduced is read through: what it returns counts
+	through := func(call *ssa.Call, idx int, visit func(ssa.Value, int), d int) bool {
+		sc := call.Common().StaticCallee()
+		if sc == nil || len(sc.Blocks) == 0 || !(c.p.transparentSite(sc) != nil || c.p.isNewNamed(sc)) {
+			return false
+		}
+		for _, b := range sc.Blocks {
+			if ret, ok := b.Instrs[len(b.Instrs)-1].(*ssa.Return); ok && idx < len(ret.Results) {
+				visit(ret.Results[idx], d+1)
+			}
+		}
+		return true
+	}
+	nTerms, nRet := 0, 0
+	seen := map[ssa.Value]bool{}
+	var bad []string
+	var visit func(v ssa.Value, d int)
+	visit = func(v ssa.Value, d int) {
+		if seen[v] || d > 20 {
+			return
+		}
+		seen[v] = true
+		switch x := v.(type) {
+		case *ssa.Const:
+			if x.Value != nil && x.Uint64() != 0 {
+				bad = append(bad, c.p.path(x))
+			}
+		case *ssa.Phi:
+			for _, e := range x.Edges {
+				visit(e, d+1)
+			}
+		case *ssa.UnOp:
+			// a named result kept in a cell (defers / closures): what is stored into it counts
+			if a, ok := x.X.(*ssa.Alloc); ok && x.Op == token.MUL && a.Referrers() != nil {
+				for _, ref := range *a.Referrers() {
+					if st, ok := ref.(*ssa.Store); ok && st.Addr == a {
+						visit(st.Val, d+1)
+					}
+				}
+				return
+			}
+			bad = append(bad, c.p.path(x))
+		case *ssa.Extract:
+			if call, ok := x.Tuple.(*ssa.Call); ok && through(call, x.Index, visit, d) {
+				return
+			}
+			bad = append(bad, c.p.path(x))
+		case *ssa.Call:
+			if through(x, 0, visit, d) {
+				return
+			}
+			bad = append(bad, c.p.path(x))
+		case *ssa.Parameter:
+			// the accumulator handed to a helper this change introduced: the argument at its call site
+			if site := c.p.transparentSite(x.Parent()); site != nil && !site.Common().IsInvoke() {
+				for i, pa := range x.Parent().Params {
+					if pa == x && i < len(site.Common().Args) {
+						visit(site.Common().Args[i], d+1)
+						return
+					}
+				}
+			}
+			bad = append(bad, c.p.path(x))
+		case *ssa.BinOp:
+			if x.Op == token.ADD {
+				term, acc := x.Y, x.X
+				if !strings.HasSuffix(c.p.path(term), ".VotingPower") {
+					term, acc = x.X, x.Y
+				}
+				if strings.HasSuffix(c.p.path(term), ".VotingPower") && dominatedByTest(x.Block()) {
+					nTerms++
+					visit(acc, d+1)
+					return
+				}
+			}
+			bad = append(bad, c.p.path(x))
+		default:
+			bad = append(bad, c.p.path(v))
+		}
+	}
+	for _, b := range gs.Blocks {
+		if ret, ok := b.Instrs[len(b.Instrs)-1].(*ssa.Return); ok && pIdx < len(ret.Results) {
+			nRet++
+			visit(ret.Results[pIdx], 0)
+		}
+	}
+	r.Check(len(bad) == 0, R+"/getSigners/power-sources", c.p.Pos(gs.Pos()), fmt.Sprintf("%d return(s); power = sum of %d VotingPower term(s) under a SignerEnabledAt test", nRet, nTerms), "getSigners can credit the power "+strings.Join(bad, ", ")+", which is not a sum of the voting power of members whose signer bit was tested: bits the signature check ignores (padding, indexes beyond the committee) or a whole-set shortcut would count as signed power")
+	r.Check(nTerms >= 1, R+"/getSigners/accumulates", c.p.Pos(gs.Pos()), "power is accumulated from members", "getSigners no longer accumulates VotingPower terms under SignerEnabledAt")
+	r.Analysed["signed_power_terms"] = nTerms
 }
 
 // splitPhi splits a rendered phi(a|b|c) path into its alternatives (top level only).
